@@ -79,6 +79,22 @@ Definition be_hyps (e : env) (fs : fmap) (paths : list Z) (old new : Z) : bool :
                        && inb p (files_of e)) paths
   && (0 <=? old) && (0 <=? new).
 
+(* ---------- hypotheses for one recover call (single top-down pass) ----------
+   a pure growth: every walked cgroup currently holds a subset of the recovered cpuset; inside the
+   walked list every directory comes after its parent; a walked cgroup whose parent is not walked
+   stays inside that parent *)
+Definition rec_updaters (paths : list Z) (new : Z) : list updater := map (fun p => mkU p new) paths.
+
+Definition rec_hyps (e : env) (fs : fmap) (paths : list Z) (new : Z) : bool :=
+  env_ok e
+  && validb e fs
+  && nodupb paths
+  && forallb (fun cp => negb (inb (fst cp) paths)
+                        || (if inb (snd cp) paths then (pos (snd cp) paths <? pos (fst cp) paths)%nat
+                            else vle (kindof e (fst cp)) new (get fs (snd cp)))) (ehier e)
+  && forallb (fun p => (kindof e p =? 0) && vle 0 (get fs p) new && inb p (files_of e)) paths
+  && (0 <=? new).
+
 (* the cache only remembers what the files hold (codes below -1 never equal a target) *)
 Definition coherent (c fs : fmap) : Prop :=
   forall k v, lookup c k = Some v -> -1 <= v -> get fs k = v.
@@ -164,6 +180,15 @@ Fixpoint hist_code (e : env) (fs : fmap) (ops : list op) (obs : list bobs) : Z :
       | (ws, fin) :: obs' =>
           if be_hyps e fs paths (be_old fs paths old) new then
             let c := prop_code e fs [be_updaters paths new] ws fin in
+            if c =? 0 then hist_code e fin r obs' else c
+          else 0
+      end
+  | ORec paths new :: r =>
+      match obs with
+      | [] => 9
+      | (ws, fin) :: obs' =>
+          if rec_hyps e fs paths new then
+            let c := prop_code e fs [rec_updaters paths new] ws fin in
             if c =? 0 then hist_code e fin r obs' else c
           else 0
       end
